@@ -7,7 +7,6 @@ use ldpc_toolbox::codes::ccsds::{AR4JACode, AR4JAInfoSize, AR4JARate, C2Code};
 use ldpc_toolbox::encoder::Encoder;
 use ldpc_toolbox::gf2::GF2;
 use ldpc_toolbox::sparse::SparseMatrix;
-use ndarray::Array1;
 use num_traits::{One, Zero};
 use serde::{Deserialize, Serialize};
 use std::collections::HashSet;
@@ -188,6 +187,13 @@ fn shift_invariant(cols: &[Vec<usize>], sub: usize) -> bool {
 }
 
 fn encode_and_check(h: &SparseMatrix, name: &str, k: usize, n: usize, messages: usize, seed: u64, p: &mut Probe) -> Check {
+    // the thread has just been refused an encoder: the same matrix with its last column emptied is
+    // singular in the last columns (the outcome of this call is not judged here)
+    {
+        let mut bad = h.clone();
+        bad.clear_col(n - 1);
+        let _ = guarded(|| Encoder::from_h(&bad).is_ok());
+    }
     let enc = guarded(|| Encoder::from_h(h)).map_err(|e| Fail::new("panic", format!("{name}: Encoder::from_h panicked: {e}")))?;
     let enc = enc.map_err(|e| Fail::new("encoder-rejects", format!("{name}: Encoder::from_h failed: {e}")))?;
     let rows = sorted_rows(h);
@@ -199,11 +205,14 @@ fn encode_and_check(h: &SparseMatrix, name: &str, k: usize, n: usize, messages: 
                 if t == 0 { 1 } else if t == 1 { 0 } else { (sd & 1) as u8 }
             })
             .collect();
-        let arr = Array1::from_iter(msg.iter().map(|&b| if b == 1 { GF2::one() } else { GF2::zero() }));
-        let cw = guarded(|| enc.encode(&arr)).map_err(|e| Fail::new("panic", format!("{name}: encode panicked: {e}")))?;
+        // the message reaches the encoder as an owned array or as one of five kinds of view (reversed,
+        // strided, offset), message t in layout t mod 6
+        let gmsg: Vec<GF2> = msg.iter().map(|&b| if b == 1 { GF2::one() } else { GF2::zero() }).collect();
+        let lay = (t % LAYOUTS as usize) as u8;
+        let cw = guarded(|| with_layout(&gmsg, GF2::one(), lay, |v| enc.encode(&v))).map_err(|e| Fail::new("panic", format!("{name}: encode panicked (message layout {}): {e}", layout_name(lay))))?;
         let cw: Vec<u8> = cw.iter().map(|x| u8::from(x.is_one())).collect();
-        ensure!(cw.len() == n && cw[..k] == msg[..], "not-systematic", "{name}: codeword does not start with the message");
-        ensure!(syndrome_rows_ok(&rows, &cw), "not-codeword", "{name}: encoded word violates a parity check");
+        ensure!(cw.len() == n && cw[..k] == msg[..], "not-systematic", "{name}: codeword does not start with the message (message layout {})", layout_name(lay));
+        ensure!(syndrome_rows_ok(&rows, &cw), "not-codeword", "{name}: encoded word violates a parity check (message layout {})", layout_name(lay));
         p.inner += 1;
     }
     Ok(())
@@ -383,7 +392,7 @@ pub fn property() -> Property {
         id: "C07",
         subs: vec![Box::new(EnumSub {
             name: "codes",
-            rule: "exhaustive over the 9 AR4JA (rate, k) pairs and C2. AR4JA: dimensions 3M x (k+3M) with M from the harness's copy of the Blue Book table; every column of a block column has the protograph degree ([4]*extra + [2,3,1,3,6], punctured block 6); invariance under the cyclic shift inside every M/4 sub-block; column-by-column equality with an own expansion (pi_k formula, block layouts of H_1/2, H_2/3, H_4/5, sums mod 2) of the pinned theta/phi tables and digest equality; own bitset elimination: last 3M columns invertible (quick: k <= 4096; thorough: all nine); Encoder::from_h + 8 messages with own H c = 0 (quick: k = 1024; thorough: also k = 4096 and rate 4/5 k = 16384; for the two largest matrices invertibility is established by the own elimination only); own girth 6 for rate 1/2 k = 1024. C2: 1022 x 8176, row weight 32, column weight 4, every 511 x 511 block a circulant of weight 2, own rank exactly 1020, own girth 6, equality with the expansion of the pinned circulant table",
+            rule: "exhaustive over the 9 AR4JA (rate, k) pairs and C2. AR4JA: dimensions 3M x (k+3M) with M from the harness's copy of the Blue Book table; every column of a block column has the protograph degree ([4]*extra + [2,3,1,3,6], punctured block 6); invariance under the cyclic shift inside every M/4 sub-block; column-by-column equality with an own expansion (pi_k formula, block layouts of H_1/2, H_2/3, H_4/5, sums mod 2) of the pinned theta/phi tables and digest equality; own bitset elimination: last 3M columns invertible (quick: k <= 4096; thorough: all nine); Encoder::from_h (on a thread that has just been refused an encoder for the same matrix with its last column emptied) + 8 messages (all-ones, all-zero, pseudo-random; handed over in six memory layouts in turn) with own H c = 0 (quick: k = 1024; thorough: also k = 4096 and rate 4/5 k = 16384; for the two largest matrices invertibility is established by the own elimination only); own girth 6 for rate 1/2 k = 1024. C2: 1022 x 8176, row weight 32, column weight 4, every 511 x 511 block a circulant of weight 2, own rank exactly 1020, own girth 6, equality with the expansion of the pinned circulant table",
             cases,
             check: check_code,
             exhaustive: true,
